@@ -136,6 +136,8 @@ package leader
 //@   on call updateIsLeaderMetric set $gaugeFresh = true
 //@   on call kvElection.cancel assert C19+C09.election_ctx_cancelled_only_by_stop_paths: caller.mayCancelElection
 //@   on call kvElection.termCancel assert C19.term_ctx_cancelled_only_when_claim_cleared: caller.mayCancelTerm
+//@   on call kvElection.onDemote assert C08+C09+C11+C13.callbacks_run_outside_the_mutex: nheld(kvElection.mu) == 0
+//@   on call kvElection.onPromote assert C08+C09+C13.callbacks_run_outside_the_mutex: nheld(kvElection.mu) == 0
 //@   on unlock kvElection.mu assert C18.gauge_follows_claim: $gaugeFresh
 //@   on call recordTransition as c assert C18.transition_chain: c.fromState == $stateAtLock && c.toState == $stateStored && held(c.e.mu) == 2
 
